@@ -257,6 +257,10 @@ class _Marshaller:
         self._write(TYPE_UNICODE)
         if not PYTHON3 and self.python_version < (3, 0):
             s = x.encode("utf8")
+        elif PYTHON3:
+            # marshal writes text as UTF-8 (lone surrogates included) and
+            # the length is the number of bytes, not characters.
+            s = x.encode("utf-8", "surrogatepass")
         else:
             s = x
         self.w_long(len(s))
@@ -592,7 +596,10 @@ class _Unmarshaller:
     def load_unicode(self):
         n = self.r_long()
         s = self._read(n)
-        ret = s.decode("utf8")
+        if PYTHON3:
+            ret = s.decode("utf-8", "surrogatepass")
+        else:
+            ret = s.decode("utf8")
         return ret
 
     dispatch[TYPE_UNICODE] = load_unicode
@@ -919,7 +926,10 @@ class _FastUnmarshaller:
     def load_unicode(self):
         n = _r_long(self)
         s = _read(self, n)
-        ret = s.decode("utf8")
+        if PYTHON3:
+            ret = s.decode("utf-8", "surrogatepass")
+        else:
+            ret = s.decode("utf8")
         return ret
 
     dispatch[TYPE_UNICODE] = load_unicode
